@@ -90,4 +90,17 @@ PROPS = {
             {"name": "TestC17Real", "quick": 120, "thorough": 6000, "race": True, "gomaxprocs": 16, "shards_quick": 1, "shards_thorough": 4, "nondeterministic": True},
         ],
     },
+    "C10": {
+        "level": "exploration",
+        "technique": "property-based testing (rapid) of a real ExchangeServer over mocknet with boundary (origin, amount)/hash/empty/raw requests against a store-read log and a reply oracle; native coverage-guided fuzzing of raw request bytes with the same oracle",
+        "level_text": "A real ExchangeServer over a real Store behind a recording proxy (tail in {1,2,5,90}, length in {1,3,70,140}) receives sequences of requests on raw streams: origin from {0,1,tail-1,tail,mid,head-1,head,head+1,far,2^64-1,2^64-64} x amount from {0,1,2,63,64,65,10000,2^64-1,2^64-6}, known/unknown/empty/oversized hashes, empty oneof, arbitrary bytes. Oracle: stream ends within read+request+write deadlines (virtual time), every store read stays inside the requested heights and <=64 headers, reply is a reset, one NOT_FOUND, or OK frames that are exactly the store's headers origin.. in order (short only past the head); head request => store head; hash request => that header. Thorough adds native fuzzing of the raw request bytes.",
+        "level_note": "Deadlines are set through the exported options and measured in virtual time; the fuzz target uses one fixed pruned store (tail 5, head 74).",
+        "rule": "Non-trivial = the request sequence contains a boundary request (tail-1/tail/head-1/head/head+1/overflow origins, amounts 63/64/65/overflow, hash just below the tail) against a store whose tail is above 1. Distinct = distinct scenario JSON.",
+        "assumptions": ["mocknet transport stands in for real libp2p streams"],
+        "extra_as_evaluations": ["fuzz_execs"],
+        "tests": [
+            {"name": "TestC10", "quick": 400, "thorough": 40000},
+            {"name": "FuzzC10Request", "fuzz": True, "fuzztime": "180s"},
+        ],
+    },
 }
